@@ -19,6 +19,14 @@ CHECKS = {
          "Same sweep as C02 with the completeness clause at n=len, monotonicity between consecutive cut lengths and, without compression, a lower bound computed by the independent format model from the bytes present / in complete chunks."),
  "C06": ("exploration", "deterministic simulation used as history generator; differential check against an independent implementation of FORMAT.md (both directions) and of AES-GCM call splits",
          "Library images decoded by the independent format model with the documented constants; foreign-writer archives read by the library; incremental AES-GCM vs the aes-gcm crate for exhaustive 2-splits up to 80 bytes and seeded k-splits; historical sample archive."),
+ "C09": ("exploration", "deterministic simulation: exhaustive short call histories + seeded long ones vs a call-validation model; completion, read-back, repair and linear extraction of the result",
+         "All call sequences of length 1..3 (quick) / 1..4 (thorough) over an 18-symbol alphabet of valid and invalid writer calls on s0, plus seeded sequences of length 5..40 on all variants/layers; the library must refuse exactly the calls the model refuses, never accept a short source, and the finished archive must equal the model that ignored refused calls."),
+ "C10": ("exploration", "deterministic simulation: seeded reader operation histories on one reader vs per-file cursor model",
+         "Histories of 20..200 list/hash/open/read/abandon operations with boundary-biased buffer sizes on interleaved multi-chunk/multi-block archives; every read must equal a per-file cursor over the model."),
+ "C11": ("exploration", "deterministic simulation: seek/read histories on each layer reader stack vs std::io::Cursor over the layer plaintext from the independent format model; exhaustive length residues on scaled variants",
+         "Layer stacks built as `mlar info` builds them; histories of seeks from start/current/end within [0,len] and reads; positions and bytes must equal a cursor; content length swept so that every residue modulo CHUNK and BLOCK occurs."),
+ "C12": ("exploration", "deterministic simulation: linear extraction into seeded subsets through splitting/interrupting sinks vs model; foreign-writer images without end marker; failing sink",
+         "Linear extraction of library archives into every kind of subset under sink schedules must deliver exactly the model bytes; marker-less / cut-in-block archives built by the format model must give Err; a failing sink must give Err."),
  "C13": ("exploration", "deterministic simulation: seeded transfer schedules (short writes/reads, Interrupted) at every seam vs the memory run",
          "Every workload is run once with complete transfers and once under a seeded schedule on the writer sink (1 byte, 1..n, Interrupted bursts), piece sources, reader/repair source and repair output sink; images, read-back and repair results must equal the memory run."),
  "C14": ("fault_enumeration", "deterministic simulation: flush = sync, sink death at/after every flush point = crash, repair = recovery, vs model of bytes appended before the flush",
